@@ -966,6 +966,21 @@ fn ilog(a: &BigUint, b: &BigUint) -> u32 {
     r
 }
 
+/// Input predicate of `a.log(b)`: undefined (a == 0 or b < 2) / a < base / defined, and whether
+/// base^(floor(log2 a) / floor(log2 b)) — the first estimate a change-of-base implementation would
+/// try — does not fit the type.
+fn log_pred(a: &BigUint, b: &BigUint, m: &BigUint) -> &'static str {
+    if a.is_zero() || *b < BigUint::from(2u32) {
+        "undefined"
+    } else if a < b {
+        "a<base"
+    } else if (BigUint::from(a.bits() - 1) / BigUint::from(b.bits() - 1)).to_u32().map(|e| b.pow(e) >= *m).unwrap_or(true) {
+        "defined,base^(log2(a)/log2(base))-overflows"
+    } else {
+        "defined"
+    }
+}
+
 fn sqrt_alphabet(t: NT) -> Vec<BigUint> {
     let w = t.bits();
     let mut v: Vec<BigUint> = vec![0u32.into(), 1u32.into(), 2u32.into(), 3u32.into()];
@@ -1022,7 +1037,10 @@ impl NumGen {
             t.enc(&r, &mut o);
             o
         });
-        self.push(format!("{}::{name}({a}, {b})", t.name()), format!("{}::{name}|a:{},b:{}|{pred}", t.name(), t.mag(a), t.mag(b)), body, logs);
+        // `log` is classified by its precise input predicate only (operand magnitudes would split one
+        // root cause over several keys); the other operators also carry the operand magnitude classes
+        let class = if name == "log" { format!("{}::{name}|{pred}", t.name()) } else { format!("{}::{name}|a:{},b:{}|{pred}", t.name(), t.mag(a), t.mag(b)) };
+        self.push(format!("{}::{name}({a}, {b})", t.name()), class, body, logs);
     }
 
     fn bin_bool(&mut self, t: NT, name: &str, expr: &dyn Fn(&str, &str) -> String, a: &BigUint, b: &BigUint, r: bool) {
@@ -1077,7 +1095,7 @@ fn gen_numeric(thorough: bool) -> Vec<RawCase> {
                 }
                 // log(a, base b)
                 let defined = !a.is_zero() && *b >= BigUint::from(2u32);
-                g.bin(t, "log", &|x, y| format!("{x}.log({y})"), a, b, if defined { Some(BigUint::from(ilog(a, b))) } else { None }, if !defined { "undefined" } else if a < b { "a<base" } else if (BigUint::from(a.bits() - 1) / BigUint::from(b.bits() - 1)).to_u32().map(|e| b.pow(e) >= m).unwrap_or(true) { "defined,base^estimate-overflows" } else { "defined" });
+                g.bin(t, "log", &|x, y| format!("{x}.log({y})"), a, b, if defined { Some(BigUint::from(ilog(a, b))) } else { None }, log_pred(a, b, &m));
             }
         }
         // extra log operands: exact powers and their neighbours
@@ -1099,7 +1117,7 @@ fn gen_numeric(thorough: bool) -> Vec<RawCase> {
             }
             for (a, b) in extra {
                 if a <= t.max() {
-                    g.bin(t, "log", &|x, y| format!("{x}.log({y})"), &a, &b, Some(BigUint::from(ilog(&a, &b))), "defined,power-neighbourhood");
+                    g.bin(t, "log", &|x, y| format!("{x}.log({y})"), &a, &b, Some(BigUint::from(ilog(&a, &b))), log_pred(&a, &b, &m));
                 }
             }
         }
